@@ -1,5 +1,7 @@
 /-
 Witness search over the generated tables (run with `lake env lean --run CfavmlModel/Driver/Witness.lean <ID>`).
+(The witnesses that need the *translated functions* of dispatch.rs are in `WitnessDispatch.lean`, so that this script still
+runs when those functions no longer translate.)
 
 The table theorems of C09 / C10 / C11 / C14 are `decide`d conjunctions of one Boolean test per row (or per CPU
 configuration). When such a theorem no longer checks, this script evaluates the *same* tests row by row on the tables
@@ -16,7 +18,6 @@ import CfavmlModel.Gen.Tables
 import CfavmlModel.Gen.ImplTables
 import CfavmlModel.Gen.RefTables
 import CfavmlModel.Gen.KernelTables
-import CfavmlModel.Gen.Dispatch
 import CfavmlModel.Spec.TestEnv
 
 open Cfavml Cfavml.Tables Cfavml.Spec
@@ -41,33 +42,8 @@ def c09 : List String := Id.run do
           out := out ++ [s!"dispatch! selects the unusable slot {repr got}: build={repr b} supplied=({s1},{s2},{s3},{s4}) available=({a1},{a2},{a3},{a4})"]
   return out
 
-/-- the availability checks as regenerated from dispatch.rs, run on every combination of compile-time target features,
-`std` and detected CPU features: a positive answer must mean every feature the guard stands for is present -/
-def availabilityWitnesses : List String := Id.run do
-  let mut out : List String := []
-  let guards : List (String × (Env → Exec Bool) × List (String × (Env → Bool))) := [
-    ("is_avx512_available", is_avx512_available,
-      [("avx512f", fun E => E.tf_avx512f || E.cpu_avx512f), ("avx512bw", fun E => E.tf_avx512bw || E.cpu_avx512bw)]),
-    ("is_avx2_available", is_avx2_available, [("avx2", fun E => E.tf_avx2 || E.cpu_avx2)]),
-    ("is_fma_available", is_fma_available, [("fma", fun E => E.tf_fma || E.cpu_fma)]),
-    ("is_neon_available", is_neon_available, [("neon", fun E => E.tf_neon || E.cpu_neon)])]
-  for std in bools do
-    for t1 in bools do for t2 in bools do for t3 in bools do for t4 in bools do
-      for c1 in bools do for c2 in bools do for c3 in bools do for c4 in bools do
-        for neon in bools do
-         for other in bools do
-          let E : Env := { testEnv with feat_std := std, tf_avx512f := t1, tf_avx512bw := t2, tf_avx2 := t3, tf_fma := t4, cpu_avx512f := c1, cpu_avx512bw := c2, cpu_avx2 := c3, cpu_fma := c4, tf_neon := neon, cpu_neon := neon, tf_avx := other, tf_sse2 := other, tf_sse4_1 := other, tf_sse4_2 := other, tf_avx512vl := other, tf_avx512dq := other, cpu_avx := other, cpu_sse2 := other, cpu_sse4_1 := other, cpu_sse4_2 := other, cpu_avx512vl := other, cpu_avx512dq := other }
-          for (name, g, feats) in guards do
-            match g E with
-            | .ok true =>
-              for (fname, has) in feats do
-                if !has E && out.length < 8 then
-                  out := out ++ [s!"{name}() answers true although {fname} is absent: std={std} target_features(avx512f,avx512bw,avx2,fma)=({t1},{t2},{t3},{t4}) cpu(avx512f,avx512bw,avx2,fma)=({c1},{c2},{c3},{c4}) neon={neon} other x86 features (avx, sse*, avx512vl/dq: compile-time and detected)={other}"]
-            | _ => pure ()
-  return out
-
 def c10 : List String := Id.run do
-  let mut out : List String := availabilityWitnesses
+  let mut out : List String := []
   for r in implMethods do
     if !implRowOk intrinsicFeatures r then
       let bad := r.intrinsics.filter (fun i =>
@@ -76,6 +52,12 @@ def c10 : List String := Id.run do
         | none => true)
       let badNames := bad.map (fun i => match intrinsicFeatures[i]? with | some (n, fs) => s!"{n} needs {repr fs}" | none => s!"#{i} (unknown)")
       out := out ++ [s!"{repr r.reg} {repr r.ty} {repr r.method}: the dispatcher verifies {repr (verifiedForReg r.reg)} for this backend, but the method uses {badNames} / calls {repr (r.calls.filter (fun c => !subsetB (verifiedForReg c.1) (allowedFor r.reg)))} — a CPU with exactly the verified features executes an instruction it lacks"]
+  for r in archRefs do
+    if !((noStdBuilds ++ stdBuilds).all (fun b => !compiledIn b r)) then
+      let needs := match intrinsicFeatures.find? (fun x => x.1 == r.path) with
+        | some (_, fs) => s!" (stdarch: needs {repr fs})"
+        | none => ""
+      out := out ++ [s!"{r.file}:{r.line} ({r.kind}) `{r.path}`{needs} is compiled into a shipped build outside the register backends: the instruction runs on every CPU, whatever the dispatcher verified (builds: {repr ((noStdBuilds ++ stdBuilds).filter (fun b => compiledIn b r) |>.map (·.features))})"]
   for r in exports do
     if !subsetB r.features (allowedFor r.reg) then
       out := out ++ [s!"export {r.xanyName} ({r.file}:{r.line}) belongs to backend {repr r.reg}, for which the dispatcher verifies {repr (verifiedForReg r.reg)}, but is compiled with target features {repr r.features}: on a CPU with exactly the verified features the routine may execute {repr (r.features.filter (fun f => !(allowedFor r.reg).contains f))} instructions"]
@@ -159,7 +141,7 @@ def c12 : List String := Id.run do
 def main (args : List String) : IO UInt32 := do
   let ws := match args with
     | ["C08"] => c08
-    | ["C09"] => c09 ++ availabilityWitnesses
+    | ["C09"] => c09
     | ["C10"] => c10 ++ c10Wiring
     | ["C11"] => c11
     | ["C12"] => c12
